@@ -22,7 +22,7 @@ def run(model, tier="quick"):
     res.rules = ["R-CACHE", "R-EFFECT"]
     n_writers, caches = run_cache(model, res, "AaveV3Market", "C13")
     res.floor("caches_found", len(caches), 5)
-    res.floor("dependency_writer_methods", n_writers, 9)
+    res.floor("dependency_writer_methods", n_writers, 6)
     res.floor("reset_events", res.units["reset_events"], 20)
     who_writes(model, res, "AaveV3Market", ["_supplies", "_borrows"] + caches, ["demeter/aave/market.py"])
     res.assumptions = [
